@@ -586,13 +586,16 @@ STATIC = list(globals().get("STATIC", [])) + list(LOOP_STATIC)
 _c10 = {}
 exec(compile(open("/verif/specs/C10/spec.py").read(), "/verif/specs/C10/spec.py", "exec"), _c10)
 for _u in _c10["UNITS"]:
-    if _u.name in ("lpq.create_thread", "lpq.schedule_thread", "lpq.schedule_thread_last"):
+    # pool.create_thread / pool.create_work (added after seeded change C19-7 was missed): the submission gate of the pool --
+    # work handed to a pool while some of its workers are suspended is accepted (postcondition 'refused => no worker threads')
+    if _u.name in ("lpq.create_thread", "lpq.schedule_thread", "lpq.schedule_thread_last", "pool.create_thread", "pool.create_work"):
         _u.name = "c10." + _u.name
         _u.template = "../C10/" + _u.template
         UNITS.append(_u)
 META["trusted_base"] = list(META.get("trusted_base", [])) + [
     "units c10.lpq.* are the C10 units of the same name (specs/C10/queues.c: the unique_lock as an owns flag, select_active_pu as the "
-    "contract proved by state.select_active_pu) with their trusted base"]
+    "contract proved by state.select_active_pu) with their trusted base",
+    "units c10.pool.create_thread / c10.pool.create_work are the C10 units of the same name (specs/C10/chain.c)"]
 META["not_decided"] = list(META.get("not_decided", [])) + [
     "the same 'lock kept until the task is queued' obligation for local_queue_scheduler and shared_priority_queue_scheduler "
     "(their placement units model the unique_lock as an int)"]
